@@ -185,6 +185,49 @@ fn directed_plain_cases(out: &mut Out, s: &Setup, r: &mut Rng) {
     }
 }
 
+
+/// Directed operand shapes for add / sub: every ordered pair of sizes 2..4 (products left unrelinearised), at the first level and — where
+/// the chain allows — one level down, where BGV products of switched operands carry correction factors g^2, g^3 against g of a switched fresh
+/// ciphertext (different sizes AND different correction factors, larger operand first and second).  Returns (name, a, b, result, expected message).
+pub fn size_pair_cases(s: &Setup, r: &mut Rng) -> Vec<(String, Ciphertext, Ciphertext, Ciphertext, Vec<u64>)> {
+    let (n, t) = (s.n, s.t); let ev = &s.evaluator;
+    let mut out = vec![];
+    let nlev = s.levels().len();
+    for down in 0..nlev.min(2) {
+        let fresh = |r: &mut Rng| -> (Ciphertext, Vec<u64>) { let m = rand_msg(r, n, t); let mut c = s.encryptor.encrypt_new(&plain_of(&m)); for _ in 0..down { c = ev.mod_switch_to_next_new(&c); } (c, m) };
+        let built = std::panic::catch_unwind(std::panic::AssertUnwindSafe(|| {
+            let (c2, m2) = fresh(r); let (x, mx) = fresh(r); let (y, my) = fresh(r); let (z, mz) = fresh(r);
+            let c3 = ev.multiply_new(&x, &y); let m3 = shadow_mul(&mx, &my, t);
+            let c4 = ev.multiply_new(&c3, &z); let m4 = shadow_mul(&m3, &mz, t);
+            vec![(c2, m2), (c3, m3), (c4, m4)] }));
+        let ops = match built { Ok(v) => v, Err(_) => continue };
+        for (ia, (a, ma)) in ops.iter().enumerate() { for (ib, (b, mb)) in ops.iter().enumerate() {
+            for sub in [false, true] {
+                let res = match std::panic::catch_unwind(std::panic::AssertUnwindSafe(|| if sub { ev.sub_new(a, b) } else { ev.add_new(a, b) })) { Ok(c) => c, Err(_) => continue };
+                let want = if sub { shadow_sub(ma, mb, t) } else { shadow_add(ma, mb, t) };
+                out.push((format!("{}-s{}x{}-l{}", if sub { "sub" } else { "add" }, ia + 2, ib + 2, down), a.clone(), b.clone(), res, want));
+            }
+        } }
+    }
+    out
+}
+
+fn directed_size_pairs(out: &mut Out, s: &Setup, r: &mut Rng) {
+    for (name, a, b, res, want) in size_pair_cases(s, r) {
+        // the sum / difference of two ciphertexts loses at most 2 bits of the smaller operand budget (C07 `budget_add_k`)
+        // (BGV operands with different correction factors are first multiplied by balancing scalars below t: up to log2 t + 1 further bits)
+        let bal = if a.correction_factor() != b.correction_factor() { (s.t as f64).log2() + 1.0 } else { 0.0 };
+        let pred = (lib_budget(s, &a).min(lib_budget(s, &b)) - 3.0 - bal).floor() as i64;
+        let view = |c: &Ciphertext| if s.scheme == SchemeType::BFV && c.is_ntt_form() { s.evaluator.transform_from_ntt_new(c) } else { c.clone() };
+        let v = view(&res);
+        out.case(&format!("prog {} {} {}", s.ct_case(&v), pred, fl(&trim(&want))), &format!("pairs-{}-{}", scheme_name(s.scheme), name), || s.dec_str(&v));
+        if s.n <= 16 {
+            let opname = if name.starts_with("sub") { "sub" } else { "add" };
+            out.case(&format!("ct_op {} 0 0 0 | {} | {} | {}", opname, s.ct_case(&a), s.ct_case(&b), s.ct_case(&res)), &format!("op-pairs-{}-{}", scheme_name(s.scheme), name), || "ok".to_string());
+        }
+    }
+}
+
 pub fn run(out: &mut Out, thorough: bool, seed: u64, _extra: &[String]) {
     let mut r = Rng::new(seed);
     // correction-factor balancing on its own: prime and composite t, all kinds of factor pairs
@@ -202,6 +245,7 @@ pub fn run(out: &mut Out, thorough: bool, seed: u64, _extra: &[String]) {
         let scheme = if pi % 2 == 0 { SchemeType::BFV } else { SchemeType::BGV };
         let s = match setup(&mut r, thorough, scheme) { Some(s) => s, None => continue };
         directed_plain_cases(out, &s, &mut r);
+        if thorough || pi < 10 { directed_size_pairs(out, &s, &mut r); }
         let mut prog = Prog::new(&s, &mut r, 3);
         let mut done = 0; let mut tries = 0;
         while done < steps && tries < steps * 6 {
